@@ -369,7 +369,20 @@ def D04():
     return evs != want, f"force_caps: keyPress('A-B') wrote {[e.hex() for e in evs]}"
 
 
-ALL = [D04, D01, D02a, D02a2, D02b, D02c, D06, D10, D12, D14a, D14b, D15, D15b,
+def D06b():
+    import io
+    c, tr = mk(nocursor=True)
+    c.connectionMade()
+    c.dataReceived(handshake33())
+    out, res = io.BytesIO(), []
+    c.captureScreen(out, format="png").addBoth(res.append)
+    # the first completed update carries only a cursor shape (2x1): no pixel data, the client has no screen yet
+    c.dataReceived(struct.pack("!BxH", 0, 1) + struct.pack("!HHHHi", 0, 0, 2, 1, -239) + bytes(8) + bytes(1))
+    failed = bool(res) and not isinstance(res[0], vclient.VNCDoToolClient)
+    return failed, f"capture pending, cursor-only update arrives first: capture ended with {res!r}, {len(out.getvalue())} bytes written"
+
+
+ALL = [D04, D06b, D01, D02a, D02a2, D02b, D02c, D06, D10, D12, D14a, D14b, D15, D15b,
        D16a, D16b, D16c, D16d, D16e, D17a, D17b, D18, D20]
 
 if __name__ == "__main__":
